@@ -128,11 +128,36 @@ func abandoned(r *payload.SplitMix, cfg prog.Config) (all []*prog.Script, groups
 	return all, groups, point
 }
 
+// finishRace builds the "cancel meets finish" program: RPC 1 ends normally on both sides, and its
+// context is cancelled while one of the goroutines that complete it sits at an internal point of
+// that completion (so the connection handles "finished" and "cancelled" of RPC 1 together). RPC 2
+// of the same goroutine then sends, cancels its own context and receives; more clean RPCs follow.
+// Whatever RPC 1 left behind must not decide how RPC 2's own cancel or the later RPCs turn out.
+var finishPoints = []string{"stream.fin", "manager.stream.fin", "stream.close.mu", "stream.closesend.emit", "manager.stream.ctx", "manager.stream.beforeSendCancel"}
+
+func finishRace(r *payload.SplitMix, cfg prog.Config) (all []*prog.Script, groups [][]*prog.Script, point string) {
+	first := &prog.Script{Tag: 1}
+	for i := 0; i <= r.Intn(2); i++ {
+		first.Client = append(first.Client, prog.Act{Op: 's', Size: prog.SizeClasses(cfg, r) % 3000})
+	}
+	first.Client = append(first.Client, prog.Act{Op: 'h'}, prog.Act{Op: 'R'})
+	first.Handler = []prog.Act{{Op: 'R'}}
+	if r.Intn(2) == 0 {
+		first.Handler = append(first.Handler, prog.Act{Op: 's', Size: 10})
+	}
+	second := &prog.Script{Tag: 2, Client: []prog.Act{{Op: 's', Size: r.Intn(100)}, {Op: 'x'}, {Op: 'r'}}, Handler: []prog.Act{{Op: 'r'}, {Op: 'R'}}}
+	all = []*prog.Script{first, second}
+	for i := 0; i <= r.Intn(3); i++ {
+		all = append(all, prog.GenClean(r, uint64(3+i), cfg))
+	}
+	return all, [][]*prog.Script{all}, payload.Pick(r, finishPoints)
+}
+
 func scenario(id string, seed uint64, family string) runner.Result {
 	late := family == "late"
 	r := &payload.SplitMix{S: seed}
 	cfg := prog.GenConfig(r, false)
-	if family == "abandoned" && r.Intn(4) != 0 && !cfg.Client.SoftCancel {
+	if (family == "abandoned" || family == "finish") && r.Intn(4) != 0 && !cfg.Client.SoftCancel {
 		cfg.Client.SoftCancel, cfg.Server.SoftCancel = true, true
 		cfg.Desc = strings.Replace(cfg.Desc, "soft=false", "soft=true", 1)
 	}
@@ -152,6 +177,10 @@ func scenario(id string, seed uint64, family string) runner.Result {
 	}
 	if family == "abandoned" {
 		all, groups, latePoint = abandoned(r, cfg)
+		nrpc, ngo = len(all), len(groups)
+	}
+	if family == "finish" {
+		all, groups, latePoint = finishRace(r, cfg)
 		nrpc, ngo = len(all), len(groups)
 	}
 	for i := 0; i < nrpc && family == ""; i++ {
@@ -230,7 +259,7 @@ func scenario(id string, seed uint64, family string) runner.Result {
 			if late {
 				// the first RPC's 'q' ended together with ours: let its receive happen
 				census.Quiesce(rig.Watchdog)
-			} else if family == "abandoned" || r.Intn(3) == 0 {
+			} else if family == "abandoned" || family == "finish" || r.Intn(3) == 0 {
 				// the RPC whose goroutine is parked here is abandoned at this very point
 				for _, l := range x.Logs() {
 					if started, done := l.ClientState(); started && !done {
@@ -407,6 +436,11 @@ func gen(tier string, seed uint64) []runner.Scenario {
 		id := fmt.Sprintf("abandoned-after-metadata/%d", i)
 		out = append(out, runner.Scenario{ID: id, Run: func() runner.Result { return scenario(id, payload.Hash(seed, 0xC02B, uint64(i)), "abandoned") }})
 	}
+	for i := 0; i < n/10; i++ {
+		i := i
+		id := fmt.Sprintf("cancel-meets-finish/%d", i)
+		out = append(out, runner.Scenario{ID: id, Run: func() runner.Result { return scenario(id, payload.Hash(seed, 0xC02C, uint64(i)), "finish") }})
+	}
 	return out
 }
 
@@ -414,7 +448,7 @@ func main() {
 	runner.Main(runner.Check{
 		Property: "C02",
 		Level:    "exploration",
-		Rule:     "one case = one program of 3-12 RPCs (clean shapes and early-ending kinds at seeded positions, some handlers that keep sending after the client left) issued by 1-4 goroutines on one connection, in a seeded configuration cell, under one of: perturbed scheduling, the client goroutine of later RPCs parked at one of 6 internal points until everything earlier RPCs left behind has been delivered, or plain; plus the late-first-receive family (an RPC whose first receive happens only after it has finished on the wire and the next RPC of another goroutine sits at an internal point with frames written but not flushed) and the abandoned-after-metadata family (an RPC with metadata cancelled between its metadata write and its invoke write, followed by RPCs with their own metadata). Every delivered message carries (rpc tag, direction, sequence, checksum); handler errors carry their rpc number. Non-trivial: all cases. Distinct: by configuration and program text; evidence also counts distinct point-hit sequences.",
+		Rule:     "one case = one program of 3-12 RPCs (clean shapes and early-ending kinds at seeded positions, some handlers that keep sending after the client left) issued by 1-4 goroutines on one connection, in a seeded configuration cell, under one of: perturbed scheduling, the client goroutine of later RPCs parked at one of 6 internal points until everything earlier RPCs left behind has been delivered, or plain; plus the late-first-receive family (an RPC whose first receive happens only after it has finished on the wire and the next RPC of another goroutine sits at an internal point with frames written but not flushed) and the abandoned-after-metadata family (an RPC with metadata cancelled between its metadata write and its invoke write, followed by RPCs with their own metadata) and the cancel-meets-finish family (an RPC that ends normally and is cancelled while its completion sits at one of 6 internal points, followed by an RPC that cancels itself and by clean RPCs: what the first left behind must not decide how the later ones turn out). Every delivered message carries (rpc tag, direction, sequence, checksum); handler errors carry their rpc number. Non-trivial: all cases. Distinct: by configuration and program text; evidence also counts distinct point-hit sequences.",
 		Assumptions: []string{
 			"a clean RPC must succeed completely only if the connection never reported closed during the program (a hard cancel closes it legitimately)",
 			"a call that never returns makes the case inconclusive here (C04/C05/C06 decide progress)",
